@@ -385,6 +385,28 @@ impl<'de> Deserialize<'de> for MemberKind {
     }
 }
 
+/// Accessors to private items for the verification harness.
+#[cfg(feature = "verif-hooks")]
+pub mod verif_hooks {
+    use super::*;
+
+    /// The `encodeType` string of `kind` for a JSON `types` object.
+    pub fn encode_type(types_json: &[u8], kind: &str) -> Result<String> {
+        let types = serde_json::from_slice::<Types>(types_json)?;
+        types.encode_type(kind)
+    }
+
+    /// Parses a member type and prints it back.
+    pub fn member_kind_roundtrip(value: &str) -> String {
+        MemberKind::from_str(value).to_string()
+    }
+
+    /// Parses a member type and prints its debug structure.
+    pub fn member_kind_debug(value: &str) -> String {
+        format!("{:?}", MemberKind::from_str(value))
+    }
+}
+
 #[cfg(test)]
 mod tests {
     use super::*;
